@@ -660,7 +660,7 @@ func racePass(r *ev.Run) {
 	}
 	rounds := ev.Pick(r, 5, 60)
 	cmd := exec.Command(raceBin, "-rounds", fmt.Sprint(rounds), "-dur", "300ms")
-	cmd.Env = append(os.Environ(), "GORACE=halt_on_error=0 exitcode=66")
+	cmd.Env = append(os.Environ(), "GORACE=halt_on_error=0 exitcode=66", "GODEBUG=") // free-running: ordinary preemption
 	out, err := cmd.CombinedOutput()
 	text := string(out)
 	p.Executions = int64(2 * rounds)
